@@ -17,6 +17,8 @@ CONTEXTS = [
     ("≬A", "≬{}++"), ("≬B", "≬+{}+"), ("≬C", "≬++{}"),
     ("after-R", "R{}"), ("after-†", "†{}"), ("after-ġ", "ġ{}"), ("after-Ǔ", "Ǔ{}"), ("after-Þf", "Þf{}"),
     ("after-□", "□{}"), ("after-ß", "ß+{}"), ("before-R", "{}R"), ("after-list", "⟨+⟩{}"), ("after-lambda", "λ+;{}"),
+    # a modifier parses the whole rest of its scope: what FOLLOWS a modified element in the same scope is a position of its own
+    ("after-v", "v+{}"), ("after-⁽", "⁽+{}"), ("after-‡", "‡+-{}"), ("after-≬", "≬+-*{}"), ("after-₌", "₌+-{}"), ("after-&", "&+{}"),
 ]
 
 MODIFIER_ARITY = {"v": 1, "⁽": 1, "&": 1, "~": 1, "ß": 1, "ƒ": 1, "ɖ": 1, "₌": 2, "‡": 2, "₍": 2, "≬": 3}
